@@ -803,7 +803,16 @@ def draw_samples(F, c):
     if ty in sym.INT_TYPES:
         w = sym.INT_TYPES[ty]
         if ty[0] == 'u':
-            return ty, [0, 1, 2, (1 << w) - 1, (1 << w) - 2, 1 << (w - 1), (1 << w) // 3, 12345]
+            pts = [0, 1, 2, (1 << w) - 1, (1 << w) - 2, 1 << (w - 1), (1 << w) // 3, 12345]
+            # a fixed spread over the draw type: 48 equidistant points, the first bytes of short inputs, a fixed LCG sequence
+            pts += [k * ((1 << w) // 48) + k for k in range(1, 48)]
+            pts += [b << (w - 8) for b in (0x0c, 0x81, 0x33, 0x7f, 0xc5)] + [0x0c, 0x81, 0x0c00]
+            x = 0x9E3779B97F4A7C15
+            for _ in range(40):
+                x = (x * 6364136223846793005 + 1442695040888963407) & ((1 << 64) - 1)
+                pts.append(x >> (64 - w) if w <= 64 else x)
+            seen = set()
+            return ty, [p for p in pts if 0 <= p < (1 << w) and not (p in seen or seen.add(p))]
         return ty, [0, 1, -1, (1 << (w - 1)) - 1, -(1 << (w - 1))]
     if ty == 'f32':
         return ty, [fval('f32', x) for x in F32_SPECIALS]
